@@ -877,6 +877,8 @@ def boundary_scenarios_audit():
     hist.append({"op": "update", "k": 1, "aid": 2, "msg": {"header": {"protocolVersion": 2, "messageId": 3, "stationId": 2001},
                                                          "poi": {"note": "updated", "flag": False}}})
     mid5 = len(hist)
+    hist.append({"op": "update", "k": 3, "aid": 2, "msg": {"poi": {"note": "header last", "delta": -7},
+                                                         "header": {"protocolVersion": 2, "messageId": 3, "stationId": 2003}}})
     hist.append({"op": "delete", "k": 0, "aid": 2})
     hist.append({"op": "delete", "k": 777, "aid": 2})
     hist.append({"op": "update", "k": 778, "aid": 2, "msg": hist[0]["msg"]})
